@@ -38,7 +38,7 @@ P = {
          "mallocs per call over 108 shapes (0 B .. 70 KB quick / 300 KB thorough, long needles, ill-formed, each fallback strategy) x 46 functions x 3 CPU-feature configurations."),
  "C06": ("proof", "4.C06", "Coq proof (Ok-totality of Impl where modelled, range theorems for Spec) + panic/hang/range observation on ill-formed corpus",
          "Totality (Impl returns Ok: no Panic from a bounds check, no OutOfFuel) follows from the refinement theorems for Compare, EqualFold, HasPrefix, TrimPrefix, CutPrefix, HasSuffix, TrimSuffix, CutSuffix, "
-         "IndexByte, IndexByteASCII, IndexRune, ContainsRune, Index, Contains (incl. brute force, main loop and Rabin-Karp), Count (general loop) and Cut; LastIndex, LastIndexByte, IndexAny, ContainsAny, LastIndexAny; for the rest (IndexNonASCII/ContainsNonASCII are their scalar definition, Count's single-byte kernel path) the theorem is the range of the Spec value and the absence of panics/hangs is observed "
+         "IndexByte, IndexByteASCII, IndexRune, ContainsRune, Index, Contains (incl. brute force, main loop and Rabin-Karp), Count (every needle) and Cut; LastIndex, LastIndexByte, IndexAny, ContainsAny, LastIndexAny; IndexNonASCII/ContainsNonASCII are their scalar definition by construction the theorem is the range of the Spec value and the absence of panics/hangs is observed "
          "(recover, watchdog) on a dense ill-formed corpus incl. exhaustive small alphabets. Reads outside the arguments: every exported function is called with its arguments flush against PROT_NONE pages on both sides."),
  "C07": ("proof", "4.C07", "Coq proof (package-shape parity of Impl where modelled, exported sets equal, _lower tables equal) + direct parity comparison of both packages",
          "Both packages are compared with each other and with the same extracted Spec on every generated case of all 23 functions; parity of the two source shapes follows where both shapes are proved to refine the same Spec "
@@ -47,7 +47,7 @@ P = {
  "C09": ("proof", "4.C09", "Coq proof over executable model + differential correspondence", "Prefix/suffix tests and the exact cut points of Trim*/Cut* proved for Spec on all byte strings, and all six functions' structure-faithful models (both package shapes) are proved to compute exactly those Spec functions on all byte strings (Refine_Prefix, Refine_Suffix); returned sub-slices are compared by position."),
  "C10": ("proof", "4.C10", "Coq proof over executable model + differential correspondence (every code point as needle)", "First-member-of-orbit characterisation of index_rune and the byte-pattern characterisation of IndexByte proved; IndexRune, ContainsRune, IndexByte, IndexByteASCII and the unexported indexRuneCase/indexRune/indexRune2/indexByte models are proved to refine them for every rune/byte argument, every cut-over function and both NativeIndex values (self-synchronisation of UTF-8 proved for arbitrary bytes; FoldMap/ToUpperLower candidate sets proved equal to the folding orbit on the regenerated tables). LastIndexByte (byte walks for non-letters and plain letters, the code-point walk for K k S s) is proved to return the last raw offset at which one of the byte patterns starts (C10_lastindexbyte_refines, C10_last_index_byte_spec). Every orbit-bearing code point and a stride of the others run as needle and haystack member."),
  "C11": ("proof", "4.C11", "Coq proof over executable model + differential correspondence (threshold grid)", "First/last code point fold-equal to some code point of chars proved for Spec; the structure-faithful models of IndexAny, ContainsAny and LastIndexAny (Impl7: makeASCIISet and the asciiSet byte scan with its bail-out when chars contains K k S s and s is not ASCII, the single-character shortcuts, the per-character IndexRune search with truncation, the walk over s testing IndexRune(chars, c), the right-to-left walks with DecodeLastRune) are PROVED to compute them on every pair of byte strings (C11_indexany_refines, C11_lastindexany_refines: every cut-over, both NativeIndex values; never Panic, never OutOfFuel). The strategies are crossed by a (len s, len chars) grid in the correspondence run."),
- "C12": ("proof", "4.C12", "Coq proof over executable model + differential correspondence", "Greedy unfolding of Count and the exact split of Cut proved for Spec; Count's general loop and Cut (both package shapes) proved to compute them around the proved model of Index itself (resuming after the matched text of the haystack, whose width differs from the needle's); Count's single-ASCII-byte kernel path is tied by correspondence."),
+ "C12": ("proof", "4.C12", "Coq proof over executable model + differential correspondence", "Greedy unfolding of Count and the exact split of Cut proved for Spec; Count's general loop and Cut (both package shapes) proved to compute them around the proved model of Index itself (resuming after the matched text of the haystack, whose width differs from the needle's); Count's single-ASCII-byte path (the accelerated byte count's scalar definition plus the occurrences of U+212A / U+017F for K k S s) is proved to count the code points in the byte's folding orbit, so C12_count_full_refines holds for EVERY needle."),
  "C13": ("other", "4.C13", "Coq proof for every pure-Go kernel body (unbounded length) + guard-page sweep of the amd64 assembly against the same scalar definition",
          "PARTIAL: the pure-Go kernel bodies (portable, no-POPCNT fallback, standard-library based) are proved equal to the scalar definition for every length and content; "
          "the amd64 assembly is NOT proved: it is swept (lengths 0..200 + page-crossing lengths quick / 0..4352 thorough, all alignments, flush against PROT_NONE pages both sides, "
